@@ -2,7 +2,7 @@
 From Coq Require Import List NArith ZArith.
 From Muscle Require Import Refl.Base Refl.BaseProofs Refl.Tree Refl.Matcher Refl.Session Refl.Server Refl.ServerProofs
      Refl.IsoModel Refl.IsoBase Refl.IsoFrame Refl.IsoProofs Refl.IsoTold Refl.IsoDetach Refl.IsoRun Refl.IsoClean
-     Refl.IsoSimBase Refl.IsoSim Refl.IsoHosts Refl.IsoNever Refl.IsoHonest Refl.IsoExamples.
+     Refl.IsoSimBase Refl.IsoSim Refl.IsoHosts Refl.IsoNever Refl.IsoHonest Refl.IsoQuiet Refl.IsoExamples.
 Import ListNotations.
 
 (* A client cannot give itself privileges. *)
@@ -160,3 +160,20 @@ Theorem C06_session_field_true : forall (M : MatchOps) (fx : fixes) xs ss what k
   exists added, xs_log (dispatch fx xs ss what keys sess) = xs_log xs ++ added /\ Forall (honest ss what sess) added.
 Proof. exact @dispatch_honest. Qed.
 Print Assumptions C06_session_field_true.
+
+(* NO SPOOFED NEWS.  In any state, after a whole turn of the server for any command of an unprivileged session s: whatever
+   another session t holds in PR_RESULT_DATAITEMS Messages (handed to its gateway or still pending) either was there before
+   the command or names a node at or below s's own directory -- s cannot make the server announce, change or retract, in
+   anybody's eyes, a node that is not its own. *)
+Theorem C06_quiet_step : forall (M : MatchOps) (fx : fixes) xs s c ss t,
+  get_session (xs_sv xs) s = Some ss -> s <> t -> unprivileged xs s -> xs_ducks xs = [] ->
+  only_about (session_dir ss) t (xs_sv xs) (xs_sv (xstep fx xs (XCmd s c))).
+Proof. exact @quiet_step. Qed.
+Print Assumptions C06_quiet_step.
+
+(* non-vacuity: in the example state session 10 (unprivileged) is attached next to 11, which holds a Message naming a node *)
+Example C06_quiet_premises_satisfiable :
+  let xs := ex_state as_found in
+  exists ss, get_session (xs_sv xs) 11%N = Some ss /\ unprivileged xs 11%N /\ xs_ducks xs = [] /\ 11%N <> 10%N /\
+             mentions (xs_sv xs) 10%N <> [].
+Proof. vm_compute. eexists. repeat split; try reflexivity; discriminate. Qed.
